@@ -393,7 +393,7 @@ def step (st : DSt) (ts : List String) : DSt × String :=
     match costOf c with
     | some (_, c) =>
       let h := fun (x : List Float × Unit) => (baseHeuristic st.starts st.goals st.thr x.1).getD (0.0 / 0.0)
-      match orderedRun h c (fun q => createBatch h st.numIters c st.n st.batch q []) 4 st.ordQ st.q with
+      match orderedRun h c (fun q => createBatch h st.numIters c st.n st.batch q []) st.ordQ st.q with
       | .found t rest q' =>
         ({ st with ordQ := rest, q := q', cur := t.1 },
           s!"osu found=1 used={st.q.length - q'.length} x={vecBits t.1} q={rest.length}")
